@@ -161,7 +161,8 @@ fn gagg(r: &mut Rng) -> (Agg, Option<String>) {
         5 => Agg::Fn("max", gcol(r)),
         6 => Agg::Fn("sum", gexpr(r, 1)),
         7 => Agg::Fn("avg", gcol(r)),
-        _ => Agg::Pct(*r.pick(&[50, 90, 99, 5, 75]), gcol(r)),
+        // every percentile 1..99: the default column name is built from the digits as written
+        _ => Agg::Pct(if r.chance(50) { *r.pick(&[50, 90, 99, 5, 75]) } else { r.range(1, 99) as u32 }, gcol(r)),
     };
     (a, if r.chance(30) { Some(gname(r)) } else { None })
 }
@@ -1242,6 +1243,20 @@ pub fn check(ctx: &mut Ctx) {
         if i % ctx.nshards == ctx.shard {
             pair(ctx, &mut rep, "fixed-pair", a, b, c04::PROBE.as_bytes(), class);
         }
+    }
+    // default column names, exhaustively over the percentile family: an explicit `as` equal to the
+    // default name changes nothing, and a later stage can refer to the default name
+    for nn in 1u32..=99 {
+        if nn as usize % ctx.nshards != ctx.shard {
+            continue;
+        }
+        let sp = ["p", "pct", "percentile"][nn as usize % 3];
+        let a = format!("* | json | p{}(n) by k", nn);
+        let b = format!("* | json | {}{}(n) as p{} by k", sp, nn, nn);
+        pair(ctx, &mut rep, "default-name", &a, &b, c04::PROBE.as_bytes(), "");
+        let a = format!("* | json | {}{}(n), count by k | sort by p{} | p{} as v | fields v, _count", sp, nn, nn, nn);
+        let b = format!("* | json | p{}(n) as p{}, count as _count by k | sort by p{} | p{} as v | fields v, _count", nn, nn, nn, nn);
+        pair(ctx, &mut rep, "default-name", &a, &b, c04::PROBE.as_bytes(), "");
     }
     requote_checks(ctx, &mut rep);
     if ctx.shard == 0 {
